@@ -66,6 +66,12 @@ def part_alignments(t):
 
 def swap_fingerprint(t):
     """structural class of a swap end-pointer mismatch: does a later part have a smaller alignment than the part before it?"""
+    ts = W.strip(t)
+    last = ts.fields[-1]
+    if last.form == 'greedy' or (last.form == 'plain' and not last.bytes and W.type_layout(last.type)[2] == W.UNLIMITED):
+        items, _ = W.offsets(ts)
+        if items[-1][1] % W.type_layout(ts)[1] != 0:
+            return 'unlimited tail member at an offset that is not a multiple of the struct alignment'
     al = part_alignments(t)
     for k in range(1, len(al) - 1):
         if al[k] > al[k + 1]:
